@@ -92,6 +92,8 @@ TTx == /\ Ev.e = "tx"
                THEN st' = Set(Ev.conn, [r1 EXCEPT !.vetted = TRUE])
                ELSE st' = Set(Ev.conn, [r1 EXCEPT !.wrong = TRUE])
           ELSE IF r.stage = 2 /\ ~r.vetted /\ Ev.pos = 1 /\ Ev.kind # "Completion" THEN st' = Set(Ev.conn, [r1 EXCEPT !.wrong = TRUE])
+          \* the registration itself must be answered by a completion: a terminal that refuses it is not registered with
+          ELSE IF r.stage = 1 /\ Ev.pos = 1 /\ Ev.kind # "Completion" THEN st' = Set(Ev.conn, [r1 EXCEPT !.regOk = FALSE])
           ELSE st' = Set(Ev.conn, r1)
        /\ UNCHANGED <<cfg, sc, incall, healthyClosed>>
 
